@@ -241,6 +241,8 @@ def call_builtin(eng, name, args, kwargs, st, node):
             if r is not None:
                 return r
         raise Unsupported(node, '%s() of %r' % (name, args[0]))
+    if name in ('set', 'dict') and not args:
+        return [(st, V('obj', oid='new!%s!%d' % (name, next(eng.counter))))]
     if name == 'callable':
         v = args[0]
         return [(st, vbool(v.k in ('func', 'class')))]
